@@ -16,7 +16,7 @@ State = what is on disk, abstractly:
 * `issued`    : how many upload ids were issued (ids are random UUIDs; the harness renames them 1,2,…).
 
 `step` mirrors every check of each operation in the order of the Rust source, so that the same error
-wins. (Since 814bd03 `upload_part_copy` has no wrapping `u64` arithmetic left.) Not modelled: timestamps, the tmp-file counter, I/O faults, names longer than the OS allows
+wins. (Since 18203b6 `upload_part_copy` has no wrapping `u64` arithmetic left.) Not modelled: timestamps, the tmp-file counter, I/O faults, names longer than the OS allows
 for key components (side-file names are modelled: `sideTooLong`), non-UTF-8 names.
 -/
 namespace S3V.FsStore
@@ -176,7 +176,7 @@ def rangeCheck (r : Range) (len : Nat) : Option (Nat × Nat) :=
       let n := min n len
       some (len - n, len)
 
-/-! ## `upload_part_copy`: the hand-written `x-amz-copy-source-range` reader (`parse_copy_source_range`, 814bd03) -/
+/-! ## `upload_part_copy`: the hand-written `x-amz-copy-source-range` reader (`parse_copy_source_range`, 18203b6) -/
 
 def sBytesEq : Bytes := [98, 121, 116, 101, 115, 61]
 
@@ -607,7 +607,7 @@ def step (H : Hashes) (dirLen : Nat) (s : State) : Op → State × Resp
             if alHas sbd s.buckets then (s, .err .NoSuchKey) else (s, .err .NoSuchBucket)
           | some .dir => (s, .unmodelled)
           | some (.file c) =>
-            -- 814bd03: a range that is not `bytes=first-last` inside the source is refused; `start..e` is what is copied
+            -- 18203b6: a range that is not `bytes=first-last` inside the source is refused; `start..e` is what is copied
             match copyRange range c.length with
             | none => (s, .err .InvalidArgument)
             | some (start, e) =>
@@ -645,7 +645,7 @@ def step (H : Hashes) (dirLen : Nat) (s : State) : Op → State × Resp
             | .error e => (s, .err e)
             | .ok ps =>
               if partTooSmall pl.length ps then (s, .err .EntityTooSmall)
-              -- 9bdb75f: the bucket may have been deleted since the upload was created: `get_bucket_path(bucket)?.exists()` (it
+              -- b29f222: the bucket may have been deleted since the upload was created: `get_bucket_path(bucket)?.exists()` (it
               -- cannot fail where `get_object_path` succeeded); nothing is written then
               else if !alHas bd s.buckets then (s, .err .NoSuchBucket)
               else
